@@ -159,7 +159,12 @@ func classMatches(class, prefix string) bool {
 	return strings.HasPrefix(class, prefix+"@") || strings.HasPrefix(class, prefix+"[") || strings.HasPrefix(class, prefix+".")
 }
 
-func (ex *Exec) topFrame(st *State) *Frame { return st.Frames[0] }
+func (ex *Exec) topFrame(st *State) *Frame {
+	if len(st.Frames) == 0 {
+		return &Frame{} // a specification expression evaluated on a view of an earlier state
+	}
+	return st.Frames[0]
+}
 
 // checkFrame: a heap store must hit a fresh object or a location listed in the top-level modifies clause.
 func (ex *Exec) checkFrame(st *State, p *PtrV, pos token.Pos) {
@@ -881,6 +886,15 @@ func (ex *Exec) VerifyFunc(sp *FuncSpec) {
 	// termination measure of the function itself (checked at calls into its recursion group)
 	for _, d := range sp.Decreases {
 		fr.Measure = append(fr.Measure, ex.evalInt(env, d))
+	}
+	for _, gs := range sp.InitSets {
+		var vals []TV
+		for _, e := range gs.Exprs {
+			vals = append(vals, env.eval(e))
+		}
+		for i := range gs.Names {
+			env.assignGhost(gs, i, vals[i])
+		}
 	}
 	for _, gs := range sp.EntrySets {
 		var vals []TV
